@@ -5,6 +5,7 @@ package main
 
 import (
 	"fmt"
+	"go/token"
 	"go/types"
 	"strings"
 
@@ -160,6 +161,9 @@ func (m *Machine) ifaceModel(st *State, fr *Frame, instr ssa.Instruction, iname 
 	c := m.ctx
 	use := func(what string) { m.trusted[iname+": "+what] = true }
 	all := append([]Value{recv}, args...)
+	if cc != nil && cc.Method != nil {
+		m.guardCall(st, fr, instr, cc.Value, cc.Method.Name())
+	}
 	switch {
 	case strings.HasSuffix(iname, ".Error") && sig.Params().Len() == 0:
 		use("pure")
@@ -262,8 +266,30 @@ func (m *Machine) lockOp(st *State, fr *Frame, instr ssa.Instruction, mu *Ptr, m
 			continue
 		}
 		tn, field, ok := strings.Cut(g.Field, ".")
-		if !ok || tn != mu.Mem || g.Arg != mu.Path {
+		if !ok || tn != mu.Mem {
 			continue
+		}
+		locks, opt := guardOpts(g.Arg)
+		mine := false
+		for _, l := range locks {
+			if l == mu.Path {
+				mine = true
+			}
+		}
+		if !mine {
+			continue
+		}
+		if mode == 1 && opt["rwrole"] != "" {
+			role := ""
+			if m.fc != nil {
+				role = m.fc.Role
+			}
+			okk := role == opt["rwrole"]
+			m.recordObl(st, fr, "guard", fmt.Sprintf("rlockrole.%s.%d", g.Field, m.ordinal(fr.fn, instr, "")), m.ctx.Bool(okk), []string{"C10"},
+				fmt.Sprintf("%s is read-locked only by the %s goroutine (it writes %s under the read lock) (%s)", mu.Path, opt["rwrole"], g.Field, g.Line), okk)
+		}
+		if opt["stable"] != "" {
+			continue // discipline only: functional contracts treat the field as not changing behind their back
 		}
 		loc, ok := m.fieldLoc(mu, field)
 		if ok {
@@ -353,8 +379,13 @@ func (m *Machine) holds(st *State, owner *Ptr, muPath string, write bool) bool {
 }
 
 // guardAccess checks the guard table for a field access (C10).
+//   by mu1 mu2 [readrole r]  write: all listed locks held for writing; read: any of them held (or the goroutine has role r)
+//   role r                   only functions running in role r (one goroutine) touch the field
+//   atomic                   only through sync/atomic
+//   config                   written only while the object is not yet shared (constructors, dialers, user set-up); read freely
+//   lock                     a synchronisation primitive itself
 func (m *Machine) guardAccess(st *State, fr *Frame, instr ssa.Instruction, p *Ptr, write bool) {
-	if st.pure || len(m.P.Contracts.Guards) == 0 || p.Idx != nil {
+	if st.pure || len(m.P.Contracts.Guards) == 0 || p.Idx != nil || m.isGhostFn(fr.fn) {
 		return
 	}
 	for _, g := range m.P.Contracts.Guards {
@@ -367,19 +398,206 @@ func (m *Machine) guardAccess(st *State, fr *Frame, instr ssa.Instruction, p *Pt
 		}
 		what := map[bool]string{true: "write", false: "read"}[write]
 		ord := fmt.Sprintf("%s.%s.%d", g.Field, what, m.ordinal(fr.fn, instr, ""))
+		role := ""
+		if m.fc != nil {
+			role = m.fc.Role
+		}
 		switch g.Kind {
 		case "by":
-			okk := m.holds(st, &Ptr{Ref: p.Ref}, g.Arg, write)
+			locks, opt := guardOpts(g.Arg)
+			readrole := opt["readrole"]
+			okk := false
+			if write {
+				okk = true
+				for _, l := range locks {
+					if !m.holds(st, &Ptr{Ref: p.Ref}, l, true) {
+						okk = false
+					}
+				}
+				if !okk && opt["rwrole"] != "" && role == opt["rwrole"] {
+					// the only goroutine that ever read-locks this mutex may also write under the read lock:
+					// every other accessor takes the write lock (checked at each RLock: guard.rlockrole)
+					okk = true
+					for _, l := range locks {
+						if !m.holds(st, &Ptr{Ref: p.Ref}, l, false) {
+							okk = false
+						}
+					}
+				}
+			} else {
+				for _, l := range locks {
+					if m.holds(st, &Ptr{Ref: p.Ref}, l, false) {
+						okk = true
+					}
+				}
+				if !okk && readrole != "" && role == readrole {
+					okk = true
+					m.trusted["reads of "+g.Field+" by the "+readrole+" goroutine rely on the field being written before that goroutine is started and not afterwards (the owning Connect / SetClient runs once)"] = true
+				}
+				if !okk && opt["readphase"] != "" && m.fc != nil && m.fc.Phase == opt["readphase"] {
+					okk = true
+					m.trusted[relName(m.fn)+" is called only in phase '"+m.fc.Phase+"' (after Connect returned on that client, or under muConnecting held by the caller): its unlocked reads of "+g.Field+" are ordered after the only write"] = true
+				}
+			}
 			m.recordObl(st, fr, "guard", ord, m.ctx.Bool(okk), []string{"C10"}, fmt.Sprintf("%s of %s requires %s (%s)", what, g.Field, g.Arg, g.Line), okk)
+		case "role":
+			okk := role == g.Arg
+			m.recordObl(st, fr, "guard", ord, m.ctx.Bool(okk), []string{"C10"}, fmt.Sprintf("%s is touched only by the %s goroutine; this function runs in role %q (%s)", g.Field, g.Arg, role, g.Line), okk)
 		case "atomic":
 			m.recordObl(st, fr, "guard", ord, m.ctx.F, []string{"C10", "C15"}, fmt.Sprintf("%s is accessed only through sync/atomic (%s)", g.Field, g.Line), false)
+		case "config":
+			if write {
+				m.recordObl(st, fr, "guard", ord, m.ctx.F, []string{"C10"}, fmt.Sprintf("%s is configuration: written only before the object is shared (%s)", g.Field, g.Line), false)
+			}
 		}
 	}
 }
 
-func (m *Machine) atomicAccess(st *State, fr *Frame, instr ssa.Instruction, p *Ptr) {}
+// guardOpts splits "mu1 mu2 readrole r rwrole r readphase p stable" into locks and options.
+func guardOpts(arg string) ([]string, map[string]string) {
+	f := strings.Fields(arg)
+	opt := map[string]string{}
+	var locks []string
+	for i := 0; i < len(f); i++ {
+		switch f[i] {
+		case "readrole", "rwrole", "readphase":
+			if i+1 < len(f) {
+				opt[f[i]] = f[i+1]
+				i++
+			}
+		case "stable":
+			opt["stable"] = "1"
+		default:
+			locks = append(locks, f[i])
+		}
+	}
+	return locks, opt
+}
 
-func (m *Machine) guardMap(st *State, fr *Frame, instr ssa.Instruction, mv ssa.Value, write bool) {}
+// atomicAccess: access through sync/atomic: fine for atomic fields; mixing with a lock-guarded field is reported.
+func (m *Machine) atomicAccess(st *State, fr *Frame, instr ssa.Instruction, p *Ptr) {
+	if st.pure || p.Idx != nil {
+		return
+	}
+	for _, g := range m.P.Contracts.Guards {
+		tn, field, ok := strings.Cut(g.Field, ".")
+		if !ok || tn != p.Mem || p.Path != field {
+			continue
+		}
+		okk := g.Kind == "atomic"
+		m.recordObl(st, fr, "guard", fmt.Sprintf("%s.atomic.%d", g.Field, m.ordinal(fr.fn, instr, "")), m.ctx.Bool(okk), []string{"C10", "C15"}, fmt.Sprintf("sync/atomic access to %s, declared %s (%s)", g.Field, g.Kind, g.Line), okk)
+	}
+}
+
+// guardMap: element accesses of a map stored in a guarded field need the same protection as the field.
+func (m *Machine) guardMap(st *State, fr *Frame, instr ssa.Instruction, mv ssa.Value, write bool) {
+	if st.pure || m.isGhostFn(fr.fn) {
+		return
+	}
+	src, ok := m.valueOrigin(mv)
+	if !ok {
+		return
+	}
+	pv, ok := m.val(st, fr, src).(*Ptr)
+	if !ok {
+		return
+	}
+	m.guardAccess(st, fr, instr, pv, write)
+}
+
+// valueOrigin: the address a value was loaded from (v = *addr), looking through phis of a single origin.
+func (m *Machine) valueOrigin(v ssa.Value) (ssa.Value, bool) {
+	if u, ok := v.(*ssa.UnOp); ok && u.Op == token.MUL {
+		if _, isFA := u.X.(*ssa.FieldAddr); isFA {
+			return u.X, true
+		}
+	}
+	return nil, false
+}
+
+// guardCall: a method call on an interface stored in a field with a guardcall declaration.
+func (m *Machine) guardCall(st *State, fr *Frame, instr ssa.Instruction, recv ssa.Value, method string) {
+	if st.pure || m.isGhostFn(fr.fn) {
+		return
+	}
+	watched := false
+	for _, g := range m.P.Contracts.GuardCalls {
+		if g.Kind == method {
+			watched = true
+		}
+	}
+	if !watched {
+		return
+	}
+	ord := fmt.Sprintf("%s.%d", method, m.ordinal(fr.fn, instr, ""))
+	src, ok := m.valueOrigin(recv)
+	if ok {
+		if pv, isP := m.val(st, fr, src).(*Ptr); isP {
+			for _, g := range m.P.Contracts.GuardCalls {
+				if g.Kind == method && g.Field == pv.Mem+"."+pv.Path {
+					okk := m.holds(st, &Ptr{Ref: pv.Ref}, g.Arg, true)
+					m.recordObl(st, fr, "guardcall", ord, m.ctx.Bool(okk), []string{"C10"}, fmt.Sprintf("%s on %s requires %s: packets are written whole, one writer at a time (%s)", method, g.Field, g.Arg, g.Line), okk)
+					return
+				}
+			}
+		}
+	}
+	// an interface value of unknown origin: only acceptable if it cannot be a watched transport
+	for _, g := range m.P.Contracts.GuardCalls {
+		if g.Kind != method {
+			continue
+		}
+		if ft := m.fieldTypeByName(g.Field); ft != nil && types.AssignableTo(ft, recv.Type()) || ft != nil && types.AssignableTo(recv.Type(), ft) || ft != nil && implementsEither(ft, recv.Type()) {
+			m.recordObl(st, fr, "guardcall", ord, m.ctx.F, []string{"C10"}, fmt.Sprintf("%s on an interface value that may be the transport of %s but is not read from that field here (cannot show that %s is held) (%s)", method, g.Field, g.Arg, g.Line), false)
+			return
+		}
+	}
+}
+
+func implementsEither(a, b types.Type) bool {
+	ia, ok1 := a.Underlying().(*types.Interface)
+	ib, ok2 := b.Underlying().(*types.Interface)
+	if !ok1 || !ok2 {
+		return false
+	}
+	// b's method set within a's or the other way round: the same dynamic value may be held in both
+	sub := func(x, y *types.Interface) bool {
+		for i := 0; i < x.NumMethods(); i++ {
+			found := false
+			for j := 0; j < y.NumMethods(); j++ {
+				if x.Method(i).Name() == y.Method(j).Name() {
+					found = true
+				}
+			}
+			if !found {
+				return false
+			}
+		}
+		return true
+	}
+	return sub(ia, ib) || sub(ib, ia)
+}
+
+func (m *Machine) fieldTypeByName(tf string) types.Type {
+	tn, field, ok := strings.Cut(tf, ".")
+	if !ok {
+		return nil
+	}
+	obj := m.P.SSA.Pkg.Scope().Lookup(tn)
+	if obj == nil {
+		return nil
+	}
+	stt, ok := obj.Type().Underlying().(*types.Struct)
+	if !ok {
+		return nil
+	}
+	for i := 0; i < stt.NumFields(); i++ {
+		if stt.Field(i).Name() == field {
+			return stt.Field(i).Type()
+		}
+	}
+	return nil
+}
 
 // ---------- time / other goroutines ----------
 
